@@ -62,9 +62,12 @@ def run_replay(path, fn, args_repr, trace=False, limit=120):
 
 def run_one(ob):
     t0 = time.time()
-    cmd = [PY, '-m', 'vf.worker', ob.path, ob.fn, str(ob.timeout)]
-    if ob.twin:
-        cmd += [ob.twin, str(ob.twin_timeout)]
+    if ob.engine == 'script':
+        cmd = [PY, ob.path]   # self-contained solver script printing a VFRESULT line (direct z3 / cvc5 encodings)
+    else:
+        cmd = [PY, '-m', 'vf.worker', ob.path, ob.fn, str(ob.timeout)]
+        if ob.twin:
+            cmd += [ob.twin, str(ob.twin_timeout)]
     hard = ob.timeout * 1.6 + (ob.twin_timeout * 1.6 if ob.twin else 0) + 60
     rec = {'name': ob.name, 'expect': ob.expect, 'finding': ob.finding, 'meta': ob.meta, 'timeout_s': ob.timeout}
     try:
@@ -98,7 +101,7 @@ def run_one(ob):
             rec['verdict'] = 'harness_error'
             rec['detail'] = 'no replayable counterexample: ' + f['state'] + ' ' + f['message'][:500]
         else:
-            rp = run_replay(ob.path, ob.fn, call['args'])
+            rp = f['replay'] if 'replay' in f else run_replay(ob.path, ob.fn, call['args'])
             rec['counterexample'] = call['args']
             rec['replay'] = rp
             if rp['outcome'] in ('false', 'raise', 'hang'):
